@@ -125,3 +125,26 @@ Proof.
     + exact (accept_event_sound 2 g e g1 E).
     + exact (IH g1 (S n) g' H).
 Qed.
+
+(* the strict acceptor moves the model state only through the plain one *)
+Lemma accept_event_s_sound : forall strict st e st',
+  accept_event_s strict st e = Some st' -> reaches (a_g st) (a_g st').
+Proof.
+  intros strict st e st' H. unfold accept_event_s in H.
+  cbv zeta in H.
+  match type of H with (match ?p with _ => _ end) = _ => destruct p as [[early waflag]|]; [|discriminate H] end.
+  repeat match type of H with (let '(_, _) := ?p in _) = _ => destruct p end.
+  destruct (accept_event 2 (a_g st) e) as [g'|] eqn:E; [|discriminate H].
+  injection H as <-. cbn [a_g]. exact (accept_event_sound 2 (a_g st) e g' E).
+Qed.
+
+Theorem accept_trace_s_sound : forall strict tr st n st',
+  accept_trace_s strict st n tr = inl st' -> reaches (a_g st) (a_g st').
+Proof.
+  induction tr as [|e tr IH]; intros st n st' H; cbn [accept_trace_s] in H.
+  - injection H as <-. apply reaches_refl.
+  - destruct (accept_event_s strict st e) as [st1|] eqn:E; try discriminate H.
+    apply (reaches_trans (a_g st) (a_g st1) (a_g st')).
+    + exact (accept_event_s_sound strict st e st1 E).
+    + exact (IH st1 (S n) st' H).
+Qed.
